@@ -68,7 +68,7 @@ theorem take_keeps_rect (s : PStruct α) (idx : List (Option Nat)) (hr : rectRow
   cases o with
   | none => rfl
   | some j =>
-    simp only
+    simp only [pickRow]
     cases hj : s.rows[j]? with
     | none => rfl
     | some r => exact hr r (List.mem_of_getElem? hj)
